@@ -190,6 +190,33 @@ func genC01(c *Ctx) {
 			c.checkBoolean(t, expr, []string{"0BSD", a})
 		}
 	}
+	// (e) scale: long chains, deep nests, long allowed lists, long reference names
+	for _, t := range scaleTrees(c.rng, c.thorough()) {
+		expr := t.render(c.rng.Intn(2), c.rng)
+		c.count("scale_trees")
+		ls := uniq(t.leaves())
+		for q := 0; q < 3; q++ {
+			var A []string
+			for _, l := range ls {
+				if c.rng.Intn(3) != 0 {
+					A = append(A, l)
+				}
+			}
+			if len(A) == 0 {
+				A = []string{"Unlicense"}
+			}
+			c.checkBoolean(t, expr, A)
+		}
+		var long []string
+		for i := 0; i < 150; i++ {
+			long = append(long, fmt.Sprintf("LicenseRef-n%d", i))
+		}
+		long = append(long, ls[0])
+		c.checkBoolean(t, expr, long)
+	}
+	longRef := "LicenseRef-" + strings.Repeat("a", 300)
+	c.checkBoolean(or(leaf(longRef), leaf("MIT")), longRef+" OR MIT", []string{longRef})
+	c.checkBoolean(or(leaf(longRef), leaf("MIT")), longRef+" OR MIT", []string{longRef + "b"})
 	// witnesses of DESIGN section 1 (corpus)
 	for _, w := range corpusSat {
 		c.checkBoolean(w.t, w.t.render(0, c.rng), w.A)
@@ -321,6 +348,18 @@ func genC02(c *Ctx) {
 				}
 			}
 			check(x, true, "", "MIT", true, "")
+		}
+	}
+	if c.thorough() {
+		var firsts []string
+		for _, ids := range fams {
+			firsts = append(firsts, ids...)
+		}
+		for _, x := range firsts {
+			for _, y := range firsts {
+				m := c.rng.Intn(4)
+				check(x, m&1 == 1, "", y, m&2 == 2, "")
+			}
 		}
 	}
 	// every listed id against the listed ids that share its base (X, X-only, X-or-later): inside or outside the table
@@ -689,6 +728,13 @@ func genC04(c *Ctx) {
 			c.fail("Satisfies", map[string]interface{}{"expression": "ISC OR MIT", "allowed": l}, r, map[bool]string{true: "no error", false: "error"}[allSingle], "error iff some allowed entry is invalid or compound")
 		}
 	}
+	for _, t := range scaleTrees(c.rng, false) {
+		e := t.render(0, c.rng)
+		agree(e)
+		agree(e + " AND")
+		agree(e + " FOO")
+		agree("(" + e)
+	}
 	// token sequences: the three entry points agree on validity
 	seqs := tokSequences(c, 3, true)
 	for _, q := range seqs {
@@ -796,6 +842,9 @@ func genC06(c *Ctx) {
 		checkTree(w.t, w.t.render(0, c.rng))
 	}
 	for _, t := range confusableTrees() {
+		checkTree(t, t.render(c.rng.Intn(2), c.rng))
+	}
+	for _, t := range scaleTrees(c.rng, c.thorough()) {
 		checkTree(t, t.render(c.rng.Intn(2), c.rng))
 	}
 	deep := 100
